@@ -15,7 +15,8 @@ CLAIMED = {
             "moved by task i's shift and carries its score; the loader is not modified); LoaderBase._post_align and "
             "_post_align_multi_templates (label column, modulo the template count) turn "
             "result i into pos_i + scale*M_i s_i and M_i R_i with score/shift features of result i and the molecule's own "
-            "feature row kept; Molecules.linear_transform / translate_internal / rotate_by_rotvec_internal implement "
+            "feature row kept; LoaderBase.align_multi_templates end to end (2 or 3 templates, any number of searched rotations); "
+            "Molecules.linear_transform / translate_internal / rotate_by_rotvec_internal implement "
             "'translate by the un-rotated shift in the molecule frame, then rotate internally'.",
             NOTE + "Trusted axiom: Rodrigues equivariance from_rotvec(M v) M == M from_rotvec(v); that model.align returns "
             "the true (s, R) is C04/C06's subject; batch/group write-back not yet under contract."),
@@ -33,8 +34,11 @@ CLAIMED = {
             NOTE + "iter_mapping_tasks pairing is covered through construct_landscape (task i gets kwargs row i; "
             "dict_iterrows trusted); LoaderAccessor.__iter__ (1 and 2 tomograms) yields the per-tomogram loaders in molecule "
             "order when each tomogram's molecules are contiguous in the table (otherwise: recorded known finding); uses the "
-            "trusted derived lemma 'contiguous keys => consecutive groups' of the polars group_by contract; loader groups "
-            "are not under contract."),
+            "trusted derived lemma 'contiguous keys => consecutive groups' of the polars group_by contract; "
+            "BatchLoader.add_tomogram (registries of 0-2 tomograms under arbitrary ids: the new tomogram gets an unused id, "
+            "earlier tomograms and rows are kept; an explicit id that is already registered is excluded by requires), "
+            "LoaderBase.classify and align_multi_templates (row pairing) are under contract; loader groups, add_loader and "
+            "BatchLoader's write-back are not."),
     "C05": ("DESIGN.md section 2 / C05",
             "Deductive, all inputs: for every max_shifts >= 0 (not only the 1/20 grid) the backend alignment kernels "
             "(_create_mesh, upsample, subpixel_zncc/ncc/pcc/fsc, crop_by_max_shifts, ncc_landscape chain) raise no "
@@ -43,14 +47,18 @@ CLAIMED = {
     "C06": ("DESIGN.md section 2 / C06",
             "Deductive for the decode step: for all template counts T, rotation counts K and all (j,k), a best flat "
             "candidate index k*T+j is reported as rotation quaternions[k] and label j by RotationImplemented.align "
-            "(nonlinear integer VCs); counterexamples are replayed on a real ZNCCAlignment with synthetic data.",
-            NOTE + "Candidate generation order and the argmax loop are not yet under contract (assumed: rotation-major, "
-            "template-minor; label of BaseAlignmentModel.align is a maximiser's flat index)."),
+            "(nonlinear integer VCs); _optimize_multiple (argmax over a symbolic number of candidates) and "
+            "_get_template_and_mask_input (K*T candidates, rotation-major / template-minor); LoaderBase.align_multi_templates "
+            "end to end (2 or 3 templates, any K, four models): row i gets label c % T and searched rotation c // T of task "
+            "i's best candidate c; counterexamples are replayed on real models / loaders with synthetic data.",
+            NOTE + "Abstract _optimize, pre_transform and Backend.affine_transform are trusted; that the best candidate is "
+            "the true one is numerical (C04)."),
     "C07": ("DESIGN.md section 2 / C07",
             "Deductive for WHICH arrays are correlated and with which formula: ncc(a, b) == sum(a*b)/sqrt(sum(a*a) sum(b*b)), "
             "zncc is the same on the mean-centred images (Pearson); ZNCCAlignment / NCCAlignment.score correlate the inverse "
             "transforms of wedge * lowpass(img * mask) and of wedge * the model's cached pre-transformed template (mask -> "
-            "low-pass -> wedge order on both sides, cutoff of the model; no-wedge and single-axis wedge), for every box shape.",
+            "low-pass -> wedge order on both sides, cutoff of the model; no-wedge and single-axis wedge), for every box shape; "
+            "the backend's Butterworth weight and lowpass_filter_ft (the low-pass the scores depend on) are verified here too.",
             NOTE + "Sums over voxels are uninterpreted values with their summand as ghost state: the range [-1, 1], the value 1 "
             "for identical inputs, the invariance under a*x+b and the agreement of score / landscape centre / zero-range "
             "alignment score need sum and convolution algebra that is not built and are NOT claimed; PCC and FSC scores "
@@ -103,7 +111,9 @@ CLAIMED = {
             "Deductive, any molecule count and all SO(3) orientations (matrix view): x/y/z are columns 2/1/0 of the rotation "
             "and unit vectors; rotate_by composes on the left and keeps positions; translate / translate_internal add the "
             "world / molecule-frame shift; rotate_by_rotvec_internal composes on the right (uses z = cross(x,y), proved "
-            "from orthogonality + det = 1 by a lemma chain); copy=True leaves the receiver unmodified; "
+            "from orthogonality + det = 1 by a lemma chain); copy=True leaves the receiver unmodified and, as a representation "
+            "invariant that carries this through every sequence of calls, no two molecules objects share a position buffer "
+            "(Molecules.__init__ and every copy=True result own their array); "
             "quaternion() / rotvec() / matrix() describe the molecule's own rotation and from_quat / from_rotvec build the "
             "rotation of the given representation (also for zero molecules).",
             NOTE + "Trusted: scipy Rotation algebra (incl. from_X(as_X(R)) == R), the Rodrigues equivariance axiom; from_axes "
@@ -113,9 +123,11 @@ CLAIMED = {
             "Deductive, all template shapes (odd/even), poses, scales: _prep_iterators' affine coefficients put the "
             "template centre on pos/scale (fragment voxel o at start+o samples centre + R^-1(start+o-pos)); _prep_slices "
             "clips with equal source/destination lengths, destination inside the volume, None iff no overlap; "
-            "_simulate_one's fragment voxel at tomogram index p is the transformed template at p - start.",
-            NOTE + "The accumulation loops of _simulate / simulate_2d (sum over fragments) and the spline interpolation "
-            "are not under contract yet (trusted: scipy.ndimage.affine_transform semantics)."),
+            "_simulate_one's fragment voxel at tomogram index p is the transformed template at p - start; _simulate, "
+            "simulate_2d and _simulate_with_color submit exactly one paste task per molecule, in molecule order, with that "
+            "molecule's matrix (and colour).",
+            NOTE + "DaskTaskPool.compute is replaced by a recording hook; the accumulation loops (tomogram[sl] += fragment) "
+            "and the spline interpolation are not under contract (trusted: scipy.ndimage.affine_transform semantics)."),
     "C15": ("DESIGN.md section 2 / C15",
             "Deductive, all b >= 1, all image shapes and molecule counts: bin_image is the axis-sum over the within-block "
             "axes of the (n,b,n,b,n,b) view with element img[j*b+t], shape s//b; SubtomogramLoader.binning and "
@@ -140,9 +152,11 @@ CLAIMED = {
             "DaskPCA._get_solver (configuration used by PcaClassifier: svd_solver='auto') is proved to return 'full' for "
             "every data shape and n_components outside the recorded known finding (randomized solver for "
             "max(n_samples,n_features) > 500 and n_components < 0.8*min); PcaClassifier masks the stack it fits and the "
-            "stack it transforms alike; DaskPCA.transform centres with the fitted mean and projects on the fitted components.",
-            NOTE + "Equality of da.linalg.svd with an exact SVD, k-means separation and the label write-back loop are "
-            "not under contract (numerical / not yet built)."),
+            "stack it transforms alike; DaskPCA.transform centres with the fitted mean and projects on the fitted components; "
+            "LoaderBase.classify builds the classifier from the stack whose row i is molecule i's masked difference, with the "
+            "requested n_components / n_clusters / seed, writes label i to molecule i of a new loader and changes nothing else.",
+            NOTE + "Equality of da.linalg.svd with an exact SVD and k-means separation are numerical (trusted); in classify the "
+            "model constructor, masked_difference, PcaClassifier.__init__ and run are replaced by summaries."),
     "C19": ("DESIGN.md section 2 / C19",
             "Deductive over opaque images (providers and converters as uninterpreted functions): every binary, reflected "
             "and comparison operator of ImageProvider / ImageConverter acts voxel-wise with the right operand order, "
@@ -159,7 +173,8 @@ CLAIMED = {
             "from the overlap margins, none lost); LoG / DoG parameters are converted to pixels with the scale; LoG / DoG "
             "picks carry the identity rotation; the template matcher reports a searched rotation whose template scores best "
             "at the maximum, at landscape index + (template + 1)/2, also for zero maxima; the blocks' extension does not "
-            "depend on the chunking. The clause 'overlap depth covers the dependency radius' fails and is a recorded "
+            "depend on the chunking; the peak search's exclusion region is the ball of the exclusion radius (footprint "
+            "passed to scipy's maximum filter). The clause 'overlap depth covers the dependency radius' fails and is a recorded "
             "known finding.",
             NOTE + "That LoG / DoG / ZNCC maxima sit on the particles is numerical (scipy filters, labelling, centre of mass: "
             "trusted, abstract picks); dask's map_overlap contract (block extension, array-location, depth as int / tuple / "
